@@ -17,6 +17,7 @@
 package pseudonymization
 
 import (
+	"errors"
 	"strconv"
 
 	"github.com/sirupsen/logrus"
@@ -46,7 +47,8 @@ func (t *DataTokenizer) Tokenize(data []byte, context common.TokenContext, setti
 	tokenType := setting.GetTokenType()
 	switch tokenType {
 	case common.TokenType_Int32:
-		i, err := strconv.ParseInt(string(data), 10, 64)
+		// bitSize 32: an integer that does not fit the column type is rejected instead of being truncated
+		i, err := strconv.ParseInt(string(data), 10, 32)
 		if err != nil {
 			return nil, err
 		}
@@ -100,8 +102,13 @@ func (t *DataTokenizer) Detokenize(data []byte, context common.TokenContext, set
 	tokenType := setting.GetTokenType()
 	switch tokenType {
 	case common.TokenType_Int32:
-		i, err := strconv.ParseInt(string(data), 10, 64)
+		// bitSize 32: an integer that does not fit the column type cannot be a token,
+		// hand it back as is (like any unknown token) instead of truncating it
+		i, err := strconv.ParseInt(string(data), 10, 32)
 		if err != nil {
+			if errors.Is(err, strconv.ErrRange) {
+				return data, nil
+			}
 			return nil, err
 		}
 		newVal, err := t.tokenizer.Deanonymize(int32(i), context, common.TokenType_Int32)
